@@ -1,5 +1,8 @@
 TB = "gcc 12 / clang 14 and their sanitizer runtimes; CPython ctypes; the harness's own reference models (small, independent of REBOUND's sources)"
 CHECKS = [
+ dict(property_id="C18", design_ref="DESIGN.md §3 C18", technique="exhaustive DWARF-vs-ctypes layout comparison + set-by-name / read-at-C-offset option monitor",
+      text="Finite space enumerated completely: every member of every mirrored structure (26 structures, ~350 members) is compared between DWARF (gdb on a -g build of the working tree) and ctypes (offset, size, kind, signedness, normalised name incl. crossed names and field/property shadowing), and every named option value is set by name in Python, read back at the C offset against the C enumerator or C symbol address, and read back by name. Thorough repeats on the AVX512 build.",
+      note="Trusted: gdb's DWARF reader; -O0 -g and -O3 builds share struct layout; " + TB),
  dict(property_id="C14", design_ref="DESIGN.md §3 C14", technique="history + executable list model, compared after every operation; ASan+UBSan build",
       text="Random add/remove/hash/lookup histories (valid and invalid requests, duplicate and zero hashes, storage growth, MERCURIUS/TRACE/tree modes, C API and Python container) are replayed against the real code and a list model; N, order, contents, N_active and lookups are compared after every operation, invalid requests must leave the persisted state unchanged, and the same histories run under ASan+UBSan. Held on the histories explored, not a proof.",
       note="Trusted: " + TB + "; particle identity is carried in the mass field; N_active compared only where an adjustment is documented by the code's own contract."),
